@@ -1219,7 +1219,7 @@ impl Interpreter {
                             );
 
                             let error_msg = JsValue::String(JsString::from(error.to_string()));
-                            if vm.inject_exception(self, error_msg.clone()) {
+                            if vm.resume_with_exception(self, error_msg.clone()) {
                                 self.active_vm = Some(Box::new(vm));
                             } else {
                                 let guarded = Guarded::from_value(error_msg, &self.heap);
@@ -1275,7 +1275,7 @@ impl Interpreter {
                                     vm_guard,
                                     &self.heap,
                                 );
-                                if vm.inject_exception(self, result_value.clone()) {
+                                if vm.resume_with_exception(self, result_value.clone()) {
                                     self.active_vm = Some(Box::new(vm));
                                 } else {
                                     let guarded = Guarded::from_value(result_value, &self.heap);
